@@ -228,3 +228,28 @@ Definition cur_read_u16_k (c : cursor) : kres (N * cursor) :=
 Definition cur_read_exact_k (c : cursor) (n : N) : kres (bytes * cursor) :=
   let r := cur_rest c in
   if (lenN r <? n) then Err OperationFailed else Ok (firstn (N.to_nat n) r, (fst c, snd c + n)).
+
+(* r.map_err(|_| e) *)
+Definition omap_err {E E' A} (f : E -> E') (x : outcome E A) : outcome E' A :=
+  match x with Ok a => Ok a | Err e => Err (f e) | Panic s => Panic s end.
+
+(* the same fold for a function whose error type is not `error` (restype) *)
+Fixpoint fold_out {E S A} (f : S -> A -> outcome E S) (l : list A) (s : S) : outcome E S :=
+  match l with
+  | [] => Ok s
+  | x :: r => obind (f s x) (fun s' => fold_out f r s')
+  end.
+
+(* the TCP health-check listener: the backlog of established connections — for each, whether writing
+   the response and shutting the stream down succeed — and HFail for an accept error other than
+   WouldBlock. accept takes the first; an empty backlog answers WouldBlock. *)
+Inductive hconn := HConn (a : addr) (write_ok shutdown_ok : bool) | HFail.
+Definition hl_accept (l : list hconn) : outcome iokind ((bool * bool) * addr) * list hconn :=
+  match l with
+  | [] => (Err WouldBlock, l)
+  | HConn a w s :: r => (Ok ((w, s), a), r)
+  | HFail :: r => (Err OtherIo, r)
+  end.
+Definition st_write (st : bool * bool) : outcome unit unit := if fst st then Ok tt else Err tt.
+Definition st_shutdown (st : bool * bool) : outcome unit unit := if snd st then Ok tt else Err tt.
+Definition iokind_is_wb (k : iokind) : bool := match k with WouldBlock => true | OtherIo => false end.
